@@ -1,6 +1,6 @@
 (* C20 -- property theorems only.  Proofs live in C20/Proofs*.v. *)
 From Coq Require Import NArith List.
-From DV Require Import Base.Outcome C20.Gen C20.Model C20.ProofsBase C20.ProofsInv C20.ProofsMain.
+From DV Require Import Base.Outcome C20.Gen C20.Model C20.ProofsBase C20.ProofsInv C20.ProofsMain C20.ProofsWide C20.ProofsStore.
 From DV Require C20.ProofsEx.
 Import ListNotations.
 Local Open Scope N_scope.
@@ -189,3 +189,84 @@ Theorem C20_interleaved_cascade_safe : forall cfg,
        v_created v = t0 /\ now - t0 <= v_valid v * 1000).
 Proof. exact interleaved_cascade_safe. Qed.
 Print Assumptions C20_interleaved_cascade_safe.
+
+Theorem C20_served_single_witness : forall cfg evs st os ev k now qc st' r,
+  request_of ev = Some (k, now, qc) ->
+  cfg_ok cfg ->
+  run cfg state_init evs = Ok (st, os) ->
+  step cfg st ev = Ok (st', OServed r) ->
+  exists k0 t0 u0,
+    logged evs os (k0, t0, u0) /\ same_question k0 k /\ flags_compatible k0 k /\ derives u0 r /\
+    resp_aged ((now - t0) / 1000) u0 r /\
+    fresh_by_class cfg (now - t0) u0 r /\
+    (k_addo k <> AdDo_Do -> k_addo k0 = AdDo_Do -> no_dnssec r) /\
+    (k_addo k = AdDo_None -> k_addo k0 <> AdDo_None -> resp_ad r = false).
+Proof. exact served_single_witness. Qed.
+Print Assumptions C20_served_single_witness.
+
+Theorem C20_fresh_entry_served : forall cfg st k qc now v,
+  inv cfg st -> k_class k = class_in -> cget k (s_cache st) = Some v ->
+  now - v_created v <= v_valid v * 1000 ->
+  exists r,
+    (forall delay u, step cfg st (EQuery k 0 qc now delay u) = Ok (st, OServed r)) /\
+    step cfg st (EStart k 0 qc now) = Ok (st, OServed r) /\
+    (r = aged (cast_secs (now - v_created v)) qc (v_resp v) \/
+     (r = RErr parse_error /\ resp_has_bad (v_resp v) = true)).
+Proof. exact fresh_entry_served. Qed.
+Print Assumptions C20_fresh_entry_served.
+
+Theorem C20_request_served_bypassed_or_logged : forall cfg st k op qc now delay u st' o,
+  inv cfg st -> step cfg st (EQuery k op qc now delay u) = Ok (st', o) ->
+  (exists r, o = OServed r /\ s_log st' = s_log st) \/
+  (o = OBypass /\ st' = st) \/
+  (forwarded o /\ op = 0 /\ k_class k = class_in /\ s_log st' = (k, now + delay, u) :: s_log st).
+Proof. exact query_trichotomy. Qed.
+Print Assumptions C20_request_served_bypassed_or_logged.
+
+Theorem C20_later_serving_ages_further : forall cfg L k v now1 now2 qc1 qc2 m1 m2,
+  cfg_ok cfg -> prov cfg L k v -> now1 <= now2 ->
+  get_response v now1 qc1 = Some (Ok (RMsg m1)) ->
+  get_response v now2 qc2 = Some (Ok (RMsg m2)) ->
+  let d := (now2 - v_created v) / 1000 - (now1 - v_created v) / 1000 in
+  m_an m2 = map (age d) (m_an m1) /\ m_ns m2 = map (age d) (m_ns m1) /\
+  m_ar m2 = map (age_opt d) (m_ar m1) /\
+  (forall y, counted m1 y -> d <= r_ttl y).
+Proof. exact later_serving_not_younger. Qed.
+Print Assumptions C20_later_serving_ages_further.
+
+Theorem C20_zero_validity_never_stored : forall cfg evs st os k v,
+  run cfg state_init evs = Ok (st, os) -> In (k, v) (s_cache st) ->
+  v_valid v <> 0 /\ validity cfg (v_resp v) = Ok (v_valid v).
+Proof. exact zero_validity_never_stored. Qed.
+Print Assumptions C20_zero_validity_never_stored.
+
+Theorem C20_stored_entries_cacheable : forall cfg evs st os k v m,
+  run cfg state_init evs = Ok (st, os) -> In (k, v) (s_cache st) -> v_resp v = RMsg m ->
+  (m_tc m = true -> c_trunc cfg = true) /\ m_broken m = false /\ m_aa m = false /\
+  (opt_rcode m = 0 -> classify_no_error m <> Ok Weird) /\
+  (forall y, counted m y -> 1 <= r_ttl y) /\
+  v_valid v <= c_maxv cfg.
+Proof. exact stored_entries_cacheable. Qed.
+Print Assumptions C20_stored_entries_cacheable.
+
+Theorem C20_served_not_authoritative : forall cfg st ev k now qc st' m,
+  request_of ev = Some (k, now, qc) ->
+  inv cfg st -> step cfg st ev = Ok (st', OServed (RMsg m)) -> m_aa m = false.
+Proof. exact served_not_authoritative. Qed.
+Print Assumptions C20_served_not_authoritative.
+
+Theorem C20_no_entry_goes_upstream : forall cfg st k qc now,
+  k_class k = class_in -> no_entry_for k (s_cache st) ->
+  (forall delay u, step cfg st (EQuery k 0 qc now delay u) = finish cfg st k (now + delay) u) /\
+  step cfg st (EStart k 0 qc now) = Ok (st, OPending) /\
+  (forall delay u st' o, step cfg st (EQuery k 0 qc now delay u) = Ok (st', o) ->
+     forwarded o /\ s_log st' = (k, now + delay, u) :: s_log st).
+Proof. exact no_entry_goes_upstream. Qed.
+Print Assumptions C20_no_entry_goes_upstream.
+
+Theorem C20_stored_retention_bounded : forall cfg evs st os k v,
+  run cfg state_init evs = Ok (st, os) -> In (k, v) (s_cache st) ->
+  retention_bounded cfg v /\
+  (forall now qc, v_valid v * 1000 < now - v_created v -> get_response v now qc = None).
+Proof. exact stored_retention_bounded. Qed.
+Print Assumptions C20_stored_retention_bounded.
